@@ -2,7 +2,7 @@
    Only statements, closed by [exact lemma], with Print Assumptions beneath. *)
 From Coq Require Import String List NArith ZArith Bool.
 From J5V.lib Require Import Outcome Json.
-From J5V.model Require Import CodecTypes CodecDecScalar CodecDec.
+From J5V.model Require Import CodecTypes CodecDecScalar CodecDec CodecDecQuery.
 From J5V.proofs Require Import CodecDecProofs CodecDecExact.
 Import ListNotations.
 Local Open Scope N_scope.
@@ -146,6 +146,17 @@ Definition sib_env : env :=
 Definition sib_doc : bytes := [123;34;97;34;58;34;120;34;44;34;98;34;58;34;121;34;125].
 Example C03_example_oneof_siblings : is_err (decode_bytes no_oracles sib_env [78] sib_doc) = true.
 Proof. vm_compute. reflexivity. Qed.
+
+(* ------------------------------------------------------------------ URL query parameters *)
+(* a scalar supplied as the single value of a query parameter is stored exactly as the JSON member
+   carrying the corresponding token (the quoted string; for bool fields the literals true / false) *)
+Theorem C03_query_scalar_as_json : forall orc e me f d props name p k v m st,
+  find_prop props name = Some p -> p_ty p = FScalar k ->
+  mem_bytes (p_json p) (qt_seen st) = false -> oneof_conflict p m = false ->
+  omap fst (query_final orc e props name [v] m st) =
+  omap fst (decode_present orc e me (S f) d p (query_token k v :: []) m).
+Proof. exact query_scalar_as_json. Qed.
+Print Assumptions C03_query_scalar_as_json.
 
 (* ------------------------------------------------------------------ non-vacuity *)
 Example C03_example_ints :
